@@ -44,7 +44,8 @@ FLOORS = {"quick": {"compared": 4000, "compared_ok": 1200,
                     "compared_reject": 800, "unbalanced": 400,
                     "define_texts": 500, "repeated_include": 2000,
                     "repeated_include_ok": 300, "open_ended_fragment": 500,
-                    "import_texts": 300},
+                    "import_texts": 300, "deep_chain": 300,
+                    "fragment_via_symlink": 300},
           "thorough": {"compared": 300000, "compared_ok": 100000,
                        "compared_reject": 100000, "unbalanced": 40000,
                        "define_texts": 40000, "import_texts": 6000}}
@@ -135,6 +136,18 @@ def compare(ctx, schema, corpus, text, case_extra, rng, dirpath, tag="",
                                       "aborted inside a fragment)"
                                       if poison else "", layout.texts()),
                         vsig="reuse|%s|%s|%s" % (poison, o_ref[0], o_re[0]))
+    if layout.cuts and rng.random() < 0.15:
+        # a fragment that is a symbolic link to a file kept in another
+        # directory: it is the resource its name says, references inside it
+        # resolve beside the link
+        frag = rng.choice(layout.cuts)["file"]
+        fp = os.path.join(dirpath, *frag.split("/"))
+        kept = os.path.join(dirpath, "kept elsewhere")
+        os.makedirs(kept, exist_ok=True)
+        if os.path.isfile(fp) and not os.path.islink(fp):
+            os.rename(fp, os.path.join(kept, "real-fragment.conf"))
+            os.symlink(os.path.join(kept, "real-fragment.conf"), fp)
+            res.count("fragment_via_symlink")
     linked = rng.random() < 0.15
     if linked:
         # the outer file really lives elsewhere; references in it are
@@ -162,6 +175,34 @@ def compare(ctx, schema, corpus, text, case_extra, rng, dirpath, tag="",
                     list(o_cut[:2]) if o_cut[0] == "ok" else list(o_cut[:6]),
                     detail="files=%r" % (layout.texts(),),
                     vsig="inc|%s|%s|%s" % (corpus, o_in[0], o_cut[0]))
+    # the whole text at the end of a long chain of includes ("to any
+    # include depth")
+    if rng.random() < 0.08:
+        n = rng.randint(9, 16)
+        lay = cuts.Layout()
+        names = []
+        for k in range(n):
+            names.append(lay.new_path(rng)[0])
+        lay.files["b/main.conf"] = [("inc", names[0], "")]
+        for k in range(n - 1):
+            lay.files[names[k]] = [("inc", names[k + 1],
+                                    rng.choice(["", "  "]))]
+        lay.files[names[-1]] = refparse.split_lines(text)
+        res.evaluations += 1
+        shutil.rmtree(dirpath, ignore_errors=True)
+        o_deep = load_path(schema, lay.write(dirpath))
+        res.count("deep_chain")
+        res.sig("%s|deep-chain|%s" % (corpus, o_in[0]))
+        if key(o_in) != key(o_deep):
+            res.violate("include-differs-from-inlined",
+                        dict(case_extra, text=text, files=lay.texts(),
+                             corpus=corpus),
+                        list(o_in[:2]) if o_in[0] == "ok" else list(o_in[:6]),
+                        list(o_deep[:2]) if o_deep[0] == "ok"
+                        else list(o_deep[:6]),
+                        detail="text at include depth %d: files=%r"
+                        % (n, lay.texts()),
+                        vsig="deep|%s|%s|%s" % (corpus, o_in[0], o_deep[0]))
     # the same fragment included twice (not recursively): equals the text
     # with those lines written out twice
     lines = refparse.split_lines(text)
